@@ -674,7 +674,11 @@ hx_job_build(IMB_MGR *mgr, const hx_spec *sp, int id, hx_job *j)
         if (sp->aadlen) {
                 j->aad = ga_alloc(sp->aadlen, 1, pl, "aad", id);
                 hx_fill(&r, j->aad, sp->aadlen);
+                if (dpat == 0 || dpat == 3) /* structured data: all-ones AAD (with an all-ones or a random message) */
+                        memset(j->aad, 0xff, sp->aadlen);
         }
+        if (dpat == 4 && j->iv && sp->ivlen && sp->ivlen != 16 && (sp->ha == IMB_AUTH_AES_GMAC || sp->cm == IMB_CIPHER_GCM))
+                memset(j->iv, 0xff, sp->ivlen); /* GCM: all-ones IV (J0 = IV || 1, or the GHASH of the IV for other lengths) */
         if (sp->ha != IMB_AUTH_NULL) {
                 j->tag = ga_alloc(sp->taglen ? sp->taglen : 1, 1, pl, "tag", id);
                 memset(j->tag, 0xEE, sp->taglen ? sp->taglen : 1);
